@@ -83,3 +83,19 @@ package aztec
 //@   ensures result != nil && result.count == (compact ? 28 : 40)
 //@   ensures compact ==> (forall t int :: 0 <= t && t < 2 ==> result.model[t] == azBitOf(layers - 1, 2, t)) && (forall t int :: 0 <= t && t < 6 ==> result.model[2 + t] == azBitOf(messageSizeInWords - 1, 6, t))
 //@   ensures !compact ==> (forall t int :: 0 <= t && t < 5 ==> result.model[t] == azBitOf(layers - 1, 5, t)) && (forall t int :: 0 <= t && t < 11 ==> result.model[5 + t] == azBitOf(messageSizeInWords - 1, 11, t))
+
+// ---------------------------------------------------------------- the image type (C11)
+//@ func (*aztecCode).Metadata
+//@   ensures result.CodeKind == barcode.TypeAztec && result.Dimensions == 2
+//@ func (*aztecCode).ColorModel
+//@   requires c != nil
+//@   ensures result == c.color.Model
+//@ func (*aztecCode).ColorScheme
+//@   requires c != nil
+//@   ensures result == c.color
+//@ func (*aztecCode).Bounds
+//@   requires c != nil && 0 <= c.size && c.size <= 1000
+//@   ensures result.Min.X == 0 && result.Min.Y == 0 && result.Max.X == c.size && result.Max.Y == c.size
+//@ func (*aztecCode).At
+//@   requires c != nil && c.BitList != nil && 0 <= x && x < c.size && 0 <= y && y < c.size && c.size <= 1000 && c.BitList.count == c.size * c.size
+//@   ensures result == (c.BitList.model[x*c.size + y] ? c.color.Foreground : c.color.Background)
